@@ -9,6 +9,7 @@
 """
 import itertools
 import json
+import math
 import os
 from fractions import Fraction as F
 
@@ -549,6 +550,129 @@ def eval_layer(ctx, E, H):
                                                        script=os.path.join(common.VERIF, "corr", "impl_eval.py"))}, True)
 
 
+# --------------------------------------------------------------------------------------
+# implementation-only search (no translated model needed): Kronecker at the element's own local
+# coordinates, partition of unity, and every derivative table against an exact 13-point
+# differentiation stencil of the previous table (exact for polynomials of degree <= 12).
+# Runs on every tree; it is what still produces a concrete failing input when the translator
+# rejects the source.
+# --------------------------------------------------------------------------------------
+def _stencil(order, n=6):
+    xs = [F(k) for k in range(-n, n + 1)]
+    m = len(xs)
+    M = [[x ** r for x in xs] + [F(math.factorial(order)) if r == order else F(0)] for r in range(m)]
+    for c in range(m):
+        piv = next(r for r in range(c, m) if M[r][c] != 0)
+        M[c], M[piv] = M[piv], M[c]
+        M[c] = [v / M[c][c] for v in M[c]]
+        for r in range(m):
+            if r != c and M[r][c] != 0:
+                M[r] = [a - M[r][c] * b for a, b in zip(M[r], M[c])]
+    return [float(M[r][m]) for r in range(m)]
+
+
+REPLAY_LIVE = r"""
+import json, os, subprocess, sys
+req = json.loads(%(req)r)
+p = subprocess.run([sys.executable, %(script)r], input=json.dumps(req), capture_output=True, text=True, env=os.environ)
+if p.returncode != 0:
+    print(p.stderr[-800:]); sys.exit(1)
+im = json.loads(p.stdout)[%(fam)r][%(elem)r]
+kind = %(kind)r
+if kind == "kron":
+    v = im["N_at_nodes"]["values"][%(i)d][0][%(j)d]; e = 1.0 if %(i)d == %(j)d else 0.0
+elif kind == "pou":
+    t = im[%(t)r]["values"]; v = sum(t[i][%(d)d][0] for i in range(len(t))); e = %(e)r
+else:
+    w = %(w)r; prev = im[%(tprev)r]["values"][%(i)d][%(d)d]; v = im[%(t)r]["values"][%(i)d][%(d)d][%(c)d]
+    e = sum(a * b for a, b in zip(w, prev)) / %(h)r
+print(kind, %(elem)r, "implementation", v, "expected", e)
+sys.exit(1 if abs(v - e) > %(tol)r * max(1.0, abs(e)) else 0)
+"""
+
+
+def live_search(ctx):
+    rng = ctx.rng
+    H_ = 0.125
+    w1 = _stencil(1)
+    script = os.path.join(common.VERIF, "corr", "impl_tables.py")
+    base = {d: [float(F(rng.randint(-8, 12), 16)) for _ in range(d)] for d in (1, 2, 3)}
+    # points per dimension: for each direction d the 13 stencil points base + k h e_d ; the centre is index 6
+    pts = {}
+    for dim in (1, 2, 3):
+        L = []
+        for d in range(dim):
+            for k in range(-6, 7):
+                q = list(base[dim]); q[d] += k * H_; L.append(q)
+        pts[dim] = L
+    req = {"points": {str(d): pts[d] for d in pts}}
+    rc, out, err = ctx.impl_python(script, input=json.dumps(req), timeout=600)
+    if rc != 0:
+        return None
+    impl = json.loads(out)
+    found = []
+    nchk = 0
+
+    def rep(**kw):
+        dflt = dict(req=json.dumps(req), script=script, i=0, j=0, d=0, c=6, t="_N", tprev="_N", e=0.0, w=w1, h=H_, tol=1e-7)
+        dflt.update(kw)
+        return {"replay_py": REPLAY_LIVE % dflt, "element": kw["elem"]}
+    for name, im in impl["lagrange"].items():
+        dim = im["dim"]
+        kn = im["N_at_nodes"].get("values")
+        if kn:
+            for i, row in enumerate(kn):
+                for j, v in enumerate(row[0]):
+                    nchk += 1
+                    if abs(v - (1.0 if i == j else 0.0)) > 1e-9:
+                        found.append(("live:kronecker:%s" % name, "%s._N[%d] at its node %d = %r" % (name, i, j, v), rep(fam="lagrange", elem=name, kind="kron", i=i, j=j, tol=1e-9)))
+                        break
+        for ti, t in enumerate(TABS):
+            vals = im[t].get("values")
+            if not vals:
+                continue
+            for d in range(len(vals[0])):
+                c = (d if ti > 0 else 0) * 13 + 6
+                # table entry [i][d] is a d-derivative: its centre on line d ; _N has one column, use line 0
+                tot = sum(vals[i][d][c] for i in range(len(vals)))
+                e = 1.0 if ti == 0 else 0.0
+                nchk += 1
+                if abs(tot - e) > 1e-9 * max(1.0, max(abs(vals[i][d][c]) for i in range(len(vals)))):
+                    found.append(("live:partition:%s:%s" % (name, t), "%s: sum of %s[:, %d] at %s = %r (expected %r)" % (name, t, d, pts[dim][c], tot, e),
+                                  rep(fam="lagrange", elem=name, kind="pou", t=t, d=d, e=e, tol=1e-9)))
+                if ti == 0:
+                    continue
+                prevv = im[TABS[ti - 1]].get("values")
+                if not prevv:
+                    continue
+                bad = None
+                for i in range(len(vals)):
+                    pd_ = 0 if ti == 1 else d
+                    line = prevv[i][pd_][d * 13:(d + 1) * 13]
+                    ex = sum(a * b for a, b in zip(w1, line)) / H_
+                    nchk += 1
+                    if abs(vals[i][d][c] - ex) > 1e-7 * max(1.0, abs(ex)):
+                        bad = (i, vals[i][d][c], ex)
+                        break
+                if bad:
+                    found.append(("live:derivative:%s:%s" % (name, t), "%s.%s[%d][%d] at %s = %r but differentiating %s gives %r" % (name, t, bad[0], d, pts[dim][c], bad[1], TABS[ti - 1], bad[2]),
+                                  rep(fam="lagrange", elem=name, kind="deriv", t=t, tprev=TABS[ti - 1], i=bad[0], d=d, c=c)))
+    for name, im in impl["hermite"].items():
+        for ti in range(1, len(HTABS)):
+            vals, prevv = im[HTABS[ti]].get("values"), im[HTABS[ti - 1]].get("values")
+            if not vals or not prevv:
+                continue
+            for i in range(len(vals)):
+                ex = sum(a * b for a, b in zip(w1, prevv[i][0][:13])) / H_
+                nchk += 1
+                if abs(vals[i][0][6] - ex) > 1e-7 * max(1.0, abs(ex)):
+                    found.append(("live:derivative:%s:%s" % (name, HTABS[ti]), "%s.%s[%d] at %s = %r but differentiating %s gives %r" % (name, HTABS[ti], i, pts[1][6], vals[i][0][6], HTABS[ti - 1], ex),
+                                  rep(fam="hermite", elem=name, kind="deriv", t=HTABS[ti], tprev=HTABS[ti - 1], i=i, d=0, c=6)))
+                    break
+    ctx.cov["live_search_checks"] = nchk
+    return found
+
+
 def run(ctx):
     ctx.assumptions += [
         "translator/elems.py, translator/hermite.py map the accepted Python expression grammar to PExpr Q faithfully (checked against the live lambdas at random dyadic points on every run)",
@@ -566,6 +690,8 @@ def run(ctx):
     except (TranslateError, SyntaxError, OSError) as ex:
         ctx.obligation("translate", False, str(ex))
         ctx.violation("translate", "translator rejected the source: %s" % ex, {"construct": str(ex)}, found_input=False)
+        for key, what, rep in (live_search(ctx) or []):
+            ctx.violation(key, what, rep, found_input=True)
         return
     ctx.obligation("translate", True, "%d Lagrange elements, %d Hermite families" % (len(E), len(H)))
     nl = sum(len(t) * len(t[0]) for r in E.values() for t in r["tables"].values() if t)
@@ -597,6 +723,10 @@ def run(ctx):
                           {"obligation": bad.failed_file, "log": bad.log[-3000:]}, found_input=False)
     correspondence(ctx, E, H)
     eval_layer(ctx, E, H)
+    live = live_search(ctx)
+    ctx.obligation("live:implementation-only Kronecker / partition / derivative-stencil search finds nothing", live == [], "%s" % (live if live is None else [k for k, _, _ in live][:5]))
+    for key, what, rep in (live or []):
+        ctx.violation(key, what, rep, found_input=True)
     if ctx.tier == "thorough" and proof_ok:
         ctx.coqchk(["C06_lagrange", "C06_hermite"] + [x[:-2] for x in extra + hextra])
     if ctx.tier == "thorough":
